@@ -202,11 +202,27 @@ def batches(ctx):
     for _ in range(1500 if ctx.quick() else 15000):
         mk = lambda: [[rng.choice([0, 1, 2, INF]), rng.choice([None, "a", "b", "c"])] for _ in range(rng.randint(0, 5))]
         w = [[a, b, rng.choice([0, 0, 1, -1, 2])] for a in (1, 2, 3) for b in (1, 2, 3)]
-        ccases.append({"min": rng.random() < 0.7, "ret": rng.choice([1, 2, 2, 2, 0]), "h1": mk(), "h2": mk(), "w": w})
+        ccases.append({"min": rng.random() < 0.7, "ret": rng.choice([1, 2, 2, 2, 0]), "h1": mk(), "h2": mk(), "w": w,
+                       "hold": [rng.choice([0, 0, 1, 2]), rng.choice([0, 0, 1, 2])]})
+
+    def operand(c, hist, kind):
+        """an operand of combine: a standalone Entry (0), or the cell of a list (1) / dict (2) table reached through
+        Table[...] (an EntryProxy).  A cell that only ever received infinite candidates is never written, so the cell
+        holders are used only when the history holds a finite value (one batch: the cell then reads as the entry)."""
+        cands = [D.Candidate(_val(v, inf), t) for v, t in hist]
+        if kind and any(v not in (INF, NINF) for v, _ in hist):
+            T = D.Table((D.ListDimension(3),) if kind == 1 else (D.DictDimension(),), MP[c["min"]], RP[c["ret"]])
+            cell = T[1] if kind == 1 else T["k"]
+            cell.update(*cands)
+            return T[1] if kind == 1 else T["k"]
+        e = D.Entry(MP[c["min"]], RP[c["ret"]])
+        e.update(*cands)
+        return e
 
     def impl_combine(c):
-        e1 = D.Entry(MP[c["min"]], RP[c["ret"]]); e1.update(*[D.Candidate(_val(v, inf), t) for v, t in c["h1"]])
-        e2 = D.Entry(MP[c["min"]], RP[c["ret"]]); e2.update(*[D.Candidate(_val(v, inf), t) for v, t in c["h2"]])
+        hold = c.get("hold", [0, 0])
+        e1 = operand(c, c["h1"], hold[0])
+        e2 = operand(c, c["h2"], hold[1])
         w = {(a, b): z for a, b, z in c["w"]}
         r = e1.combine(e2, lambda l, r_: D.Candidate(l.value + r_.value + w[(TAGS[l.info], TAGS[r_.info])], (l.info, r_.info)))
         tags = sorted(TAGS[a] * 10 + TAGS[b] for a, b in r.infos())
